@@ -342,19 +342,35 @@ fn run_both(h: &[TStep]) -> Result<Vec<Obs>, (String, String)> {
 // ---------------------------------------------------------------------------------------
 
 fn check_std<T>(table: &StaticTypeResolver, again: &StaticTypeResolver, copy: bool, count: &mut u64, bad: &mut Vec<(String, String)>) {
-    *count += 1;
+    // the generic part is kept tiny (418 instantiations)
     let host = HostTypeResolver.type_info::<T>();
-    let std_name = std::any::type_name::<T>();
-    let typed = catch_unwind(AssertUnwindSafe(|| table.type_info::<T>()));
+    let typed = catch_unwind(AssertUnwindSafe(|| table.type_info::<T>())).ok();
+    check_std_inner(table, again, copy, count, bad, host, typed, std::any::type_name::<T>(), std::mem::size_of::<T>(), std::mem::align_of::<T>());
+}
+
+#[allow(clippy::too_many_arguments)]
+fn check_std_inner(
+    table: &StaticTypeResolver,
+    again: &StaticTypeResolver,
+    copy: bool,
+    count: &mut u64,
+    bad: &mut Vec<(String, String)>,
+    host: TypeInfo,
+    typed: Option<TypeInfo>,
+    std_name: &str,
+    size: usize,
+    align: usize,
+) {
+    *count += 1;
     let typed = match typed {
-        Ok(t) => t,
-        Err(_) => {
+        Some(t) => t,
+        None => {
             bad.push(("table/typed-lookup-failed".into(), format!("{} is not found by type", std_name)));
             return;
         }
     };
-    if typed != host || host.size != std::mem::size_of::<T>() || host.align != std::mem::align_of::<T>() {
-        bad.push(("table/typed-differs-from-host".into(), format!("{}: table {:?}, host {:?}, real ({}, {})", std_name, typed, host, std::mem::size_of::<T>(), std::mem::align_of::<T>())));
+    if typed != host || host.size != size || host.align != align {
+        bad.push(("table/typed-differs-from-host".into(), format!("{}: table {:?}, host {:?}, real ({}, {})", std_name, typed, host, size, align)));
     }
     // every spelling: the recorded name, the compiler's name, without spaces
     let mut spellings = vec![host.name.clone(), std_name.to_owned(), host.name.replace(' ', "")];
